@@ -1066,6 +1066,14 @@ N('davidson-extension-full-pivoting', 'C15',
 N('davidson-correction-count-from-ritz-values', 'C15',
   [('DavidsonSymEigsSolver.h', "Index(residues.cols()));", "Index(eigvals.size()));")], 'same count from the other array')
 
+# ----------------------------------------------------------------------------- F43 (K1)
+M('davidson-correction-denominator-unguarded', 'C15', 'division-guarded',
+  [('DavidsonSymEigsSolver.h', "            tmp = (tmp.array().abs() < den_floor).select(Vector::Constant(tmp.size(), den_floor), tmp);\n", "")], 'reverts fix F43')
+M('davidson-correction-floor-can-be-zero', 'C15', 'division-guarded',
+  [('DavidsonSymEigsSolver.h', "const Scalar den_floor = (std::max)(Eigen::NumTraits<Scalar>::epsilon() * (std::abs(eigvals(k)) + diag_scale),\n                                                (std::numeric_limits<Scalar>::min)());", "const Scalar den_floor = Eigen::NumTraits<Scalar>::epsilon() * (std::abs(eigvals(k)) + diag_scale);")], 'for the zero matrix the floor is 0: 0 / 0 again')
+N('davidson-correction-clamped-by-cwise-max-of-abs', 'C15',
+  [('DavidsonSymEigsSolver.h', "            tmp = (tmp.array().abs() < den_floor).select(Vector::Constant(tmp.size(), den_floor), tmp);\n            correction.col(k) = residues.col(k).array() / tmp.array();", "            correction.col(k) = residues.col(k).array() / ((tmp.array() < Scalar(0)).select(-Vector::Ones(tmp.size()), Vector::Ones(tmp.size())).array() * tmp.array().abs().cwiseMax(den_floor));")], 'sign times max(|v|, floor): another clamp')
+
 # ----------------------------------------------------------------------------- F41 / F42 / K5
 M('davidson-new-directions-by-rank-of-projected-block', 'C15', 'search-space-basis-orthonormal',
   [('LinAlg/SearchSpace.h', "        Index rank = 0;\n        while (rank < qr.nonzeroPivots() && std::abs(qr.matrixR()(rank, rank)) > new_dir_thresh)\n            rank++;\n", "        qr.setThreshold(new_dir_thresh);\n        const Index rank = qr.rank();\n")], 'reverts fix F41: pivots compared with the largest pivot of the projected block')
